@@ -381,16 +381,164 @@ def describe(case, hdr, ev, axis, clauses):
                 v[0], v[1], v[2], v[3], v[4], v[5]))
 
 
-# ------------------------------------------------------------------------------------------- lead's hook
-def validate_compiled(run, tier):
-    """HOOK (lead): validation of stripe groups decoded from compiled command streams goes here.
+# ------------------------------------------------------------------------------------------- compiled streams
+COMPILED_FAMILIES = ["chain", "stride3", "branch", "mixed", "resize", "wide", "inplace", "chain", "u8i16", "widen", "lut",
+                     "diamonds", "pruned", "lutmany"]
 
-    Intended shape: compile the corpus (vela_run.compile_many with an extractor), decode the register stream into
-    per-operator stripe groups, emit the same events as c10_driver.run_case (Hdr with the operator geometry read from
-    the *source* model; S events with OFM box, derived IFM extent, pad registers and tile split from decoded
-    registers; End), then call validate_batches(run, "StripesTrace", ...) / validate_batches(run, "CascadeTrace", ...)
-    and report through report_stripe_violations().  No-op for now."""
-    return None
+
+def compiled_jobs(tier, sd):
+    from .. import corpus
+    from .. import c10_repro
+    from .. import netgen
+    jobs = [dict(j, family="directed:" + j["id"]) for j in c10_repro.jobs()]      # the end-to-end reproductions of F1, F2, F3, F5
+    n = netgen.Net(7)             # split read offsets along W and C feeding padded kernels (exact on the unchanged tree)
+    x = n.fm("in", [1, 8, 12, 32], is_input=True)
+    parts = n.split(x, 3, axis=2)
+    halves = n.split(x, 2, axis=3)
+    outs = [n.dwconv(parts[1], k=3, pad="SAME"), n.conv(parts[2], 8, k=3, pad="SAME"), n.pool(halves[1], "MAX_POOL_2D", k=2, stride=2, pad="VALID")]
+    jobs.append({"id": "d-split", "family": "directed:split(W,C) -> padded kernels", "net": n.desc(outs), "opts": {"accel": "ethos-u55-128"}})
+    jobs += corpus.all_singles(sd)
+    jobs += corpus.draw(30 if tier == "quick" else 1000, sd, families=COMPILED_FAMILIES, dedicated_bias=0.5)
+    for n, j in enumerate(jobs):
+        j["id"] = "c%d" % n
+    return jobs
+
+
+def compile_jobs(jobs):
+    from .. import logical, vela_run
+    return vela_run.compile_many(jobs, extractor=logical.extract)
+
+
+def compiled_traces(jobs, results, first_tid=1000000):
+    """-> (stripes traces [(tid, events)], cascade traces [(ctid, events)], meta {tid: ...}, stats)"""
+    from .. import streams, c10_compiled
+    stats = {"compiled_jobs": len(jobs), "compile_rejected": 0, "compiled_streams": 0, "compiled_stripes": 0, "compiled_operators": 0,
+             "compiled_cascades": 0, "rolling_buffer_reads": 0, "operators_outside_oracle": 0, "operators_partition_only": 0}
+    straces, ctraces, meta = [], [], {}
+    raw = []              # (ops, logical subgraph) of the first streams, for the register-corruption controls
+    tid = first_tid
+    for j, x in zip(jobs, results):
+        if x.get("rc") != 0 or "out_bytes" not in x:
+            stats["compile_rejected"] += 1          # rejected / crashed compilations are C13's business
+            continue
+        if "extract" not in x:
+            raise MachineryError("no logical command list for %s: %s" % (j["family"], x.get("extract_error")))
+        _, ss = streams.analyse(x["out_bytes"], j["opts"]["accel"])
+        lgs = x["extract"]
+        if len(lgs) != len(ss):
+            raise MachineryError("pairing of subgraphs failed for " + j["family"])
+        for k, (st, lg) in enumerate(zip(ss, lgs)):
+            if list(st["payload"]["words"]) != lg["words"]:
+                raise MachineryError("command stream of the output file differs from the generated one (%s)" % j["family"])
+            tid += 1
+            evs, cascades, hdr, stt = c10_compiled.stream_events(tid, st["ops"], lg)
+            if len(raw) < 60:
+                raw.append((st["ops"], lg))
+            short = {"id": tid, "compiled": j["family"], "opts": j["opts"], "stream": k}
+            full = {"compiled": True, "family": j["family"], "net": j["net"], "opts": j["opts"], "stream": k}
+            if hdr["n"]:
+                straces.append((tid, evs))
+                meta[tid] = (short, full, hdr)
+            for ctid, ch, cev in cascades:
+                ctraces.append((ctid, cev))
+                meta[ctid] = (dict(short, id=ctid, operators=[hdr["ops"][i]["name"] for i in ch]), full, hdr)
+            stats["compiled_streams"] += 1
+            stats["compiled_stripes"] += stt["stripes"]
+            stats["compiled_operators"] += stt["ops"]
+            stats["compiled_cascades"] += stt["cascades"]
+            stats["rolling_buffer_reads"] += stt["rolling_reads"]
+            stats["operators_outside_oracle"] += stt["skipped_ops"]
+            stats["operators_partition_only"] += stt["unchecked_ops"]
+    stats["_raw"] = raw
+    return straces, ctraces, meta, stats
+
+
+def compiled_controls(run, raw):
+    """corrupt ONE decoded register of a real stream and require the trace specifications to reject it: the compiled
+    part must see a wrong pad register, OFM height or tile base even though the logical command is untouched."""
+    from .. import c10_compiled
+    done = []
+
+    def corrupt(pred, change, module, want, name):
+        for ops, lg in raw:
+            for q, (o, c) in enumerate(zip(ops, lg["cmds"])):
+                if c["type"] == "stripe" and o["kind"] != "dma" and pred(o, c):
+                    ops2 = [dict(x, regs=dict(x["regs"])) if n == q else x for n, x in enumerate(ops)]
+                    change(ops2[q]["regs"])
+                    evs, cascades, hdr, _ = c10_compiled.stream_events(999999, ops2, lg)
+                    if hdr["n"] == 0 or c["name"] not in [x.get("name") for x in hdr["ops"]]:
+                        continue
+                    if module == "StripesTrace":
+                        _, v, _ = validate(module, evs)
+                        hit = any(x[4] == want for x in v)
+                    else:
+                        hit = False
+                        for _, _, cev in cascades:
+                            _, v, _ = validate(module, cev)
+                            hit = hit or any(x[3] in want for x in v)
+                    if not hit:
+                        raise MachineryError("compiled control '%s' not rejected (%s expected): %s" % (name, want, v[:4]))
+                    done.append(name)
+                    return
+        done.append(name + " (no suitable stripe in the first streams: skipped)")
+
+    def bump(reg, d):
+        def f(regs):
+            regs[reg] = regs.get(reg, 0) + d
+        return f
+    corrupt(lambda o, c: o["kind"] != "ew" and o["regs"].get("NPU_SET_IFM_PAD_TOP", 0) > 0 and not c.get("tile_padding"),
+            bump("NPU_SET_IFM_PAD_TOP", -1), "StripesTrace", "PadBefore", "IFM_PAD_TOP - 1")
+    corrupt(lambda o, c: o["kind"] != "ew" and o["regs"].get("NPU_SET_IFM_PAD_RIGHT", 0) > 0 and not c.get("tile_padding"),
+            bump("NPU_SET_IFM_PAD_RIGHT", -1), "StripesTrace", "PadAfter", "IFM_PAD_RIGHT - 1")
+    corrupt(lambda o, c: o["regs"].get("NPU_SET_OFM_HEIGHT_M1", 0) > 0 and c.get("orig") != "Transpose",
+            bump("NPU_SET_OFM_HEIGHT_M1", -1), "StripesTrace", "Partition", "OFM_HEIGHT - 1")
+    corrupt(lambda o, c: c10_compiled.rolling(c.get("ifm")) and o["kind"] != "ew",
+            lambda regs: regs.__setitem__("NPU_SET_IFM_BASE0", regs["NPU_SET_IFM_BASE0"] + regs["NPU_SET_IFM_STRIDE_Y"]),
+            "CascadeTrace", ("NoEarlyOverwrite", "ReadBeforeProduced"), "IFM_BASE0 + one row on a rolling buffer")
+    run.cov["compiled_negative_controls"] = done
+
+
+def validate_compiled(run, tier, pending=None):
+    """Stripe groups decoded from COMPILED command streams (see harness/c10_compiled.py): (a) the OFM boxes of every
+    operator partition its output, (b) per stripe the rows/columns/channels the hardware reads (logical box start +
+    register-derived extent) and the pad registers are Exact for the operator's geometry, (c) NoEarlyOverwrite /
+    ReadBeforeProduced on real rolling buffers, with the slots taken from the tile registers.
+    pending = (jobs, future of compile_jobs) when main() started the compilations early."""
+    if pending is None:
+        jobs = compiled_jobs(tier, seed())
+        results = compile_jobs(jobs)
+    else:
+        jobs, fut = pending
+        results = fut.result()
+    straces, ctraces, meta, stats = compiled_traces(jobs, results)
+    raw = stats.pop("_raw")
+    if not straces:
+        raise MachineryError("no compiled stream produced a stripe")
+    compiled_controls(run, raw)
+    sviol, _ = validate_batches(run, "StripesTrace", [ev for _, ev in straces])
+    cviol = []
+    if ctraces:
+        cviol, _ = validate_batches(run, "CascadeTrace", [ev for _, ev in ctraces])
+    evmap = dict(straces)
+    evmap.update(dict(ctraces))
+    by_id = {t: m[0] for t, m in meta.items()}
+    full = {t: m[1] for t, m in meta.items()}
+    for t, evs in straces:
+        hdr = meta[t][2]
+        for e in evs:
+            if e["e"] == "S":
+                op = hdr["ops"][e["op"]]
+                run.nontrivial(("compiled", op["cls"], op["pt"], op["ax"]["H"]["k"], op["ax"]["H"]["s"], op["sp"], op["ax"]["H"]["wo"] > 0,
+                                op["up"], e["H"][4] > 0, e["H"][5] > 0, e["first"], e["last"], bool(e["rd"]), bool(e["rd"] and e["rd"][1] < e["H"][3] - e["H"][2])))
+    run.evaluated(stats["compiled_stripes"] * 3)
+    keys = report_stripe_violations(run, by_id, evmap, sviol, full) | report_cascade_violations(run, by_id, evmap, cviol, full)
+    stats["compiled_violation_keys"] = sorted(keys)
+    stats["compiled_violating_stripes"] = len({(v[0], v[1]) for v in sviol})
+    stats["compiled_violating_cascade_reads"] = len({(v[0], v[1]) for v in cviol})
+    run.cov.update(stats)
+    for t, evs in straces[:2]:
+        run.sample({"compiled": by_id[t], "operators": [o["cls"] for o in evs[0]["ops"]], "first_stripe": evs[1] if len(evs) > 1 else None})
+    return stats
 
 
 # ------------------------------------------------------------------------------------------- main
@@ -491,6 +639,10 @@ def main(tier, only=None):
     sd = seed()
     rng = random.Random(sd)
     quick = tier == "quick"
+    if os.environ.get("C10_PART") == "compiled":      # diagnostic mode (harness.c10_mutants --part compiled): the compiled part alone
+        validate_compiled(run, tier)
+        run.cov["rule"] = "diagnostic run of the compiled part only"
+        return run.finish()
     # ---- design level: model checking, all configurations concurrently
     jobs = {
         "stripes": ("StripesMC", "Stripes_MC.cfg" if quick else "Stripes_Thorough.cfg", 6, "ok"),
@@ -501,6 +653,10 @@ def main(tier, only=None):
         "cascade_s3": ("Cascade", "Cascade_S3.cfg" if quick else "Cascade_S3T.cfg", 4, "ok"),
         "cascade_short": ("Cascade", "Cascade_Short.cfg", 1, "invariant"),
     }
+    # compilations of the corpus for validate_compiled run in forked children next to TLC and the lattice
+    cjobs = compiled_jobs(tier, sd)
+    cpool = ThreadPoolExecutor(1)
+    cfut = cpool.submit(compile_jobs, cjobs)
     pool = ThreadPoolExecutor(len(jobs))
     futs = {k: pool.submit(_mc, m, c, w, exp, exp == "ok") for k, (m, c, w, exp) in jobs.items()}
     # ---- S2C: the lattice through the real code (runs while TLC works)
@@ -605,7 +761,8 @@ def main(tier, only=None):
                         "families": {f: sum(1 for c in cases if c.get("fam") == f) for f in sorted({c.get("fam") for c in cases})}}
     for cid_, ev in good[:3]:
         run.sample({"case": by_id[cid_], "first_stripe": ev[1] if len(ev) > 1 else None})
-    validate_compiled(run, tier)
+    validate_compiled(run, tier, (cjobs, cfut))
+    cpool.shutdown()
     run.cov["rule"] = (
         "cases = (operator chain, stripe height): exhaustive/sampled lattice of class x extent x kernel 1..8 x dilation x stride 1..3 x "
         "SAME/VALID/explicit padding x all stripe heights, split read offsets (single stripe), concat write offsets, x2 nearest/transpose "
@@ -613,6 +770,9 @@ def main(tier, only=None):
         "160 (thorough), chains of 2-3 cascaded operators whose stripe heights come from the real propose_schedule_striping, plus every "
         "candidate printed by the TLC runs of StripesMC/Cascade; each case runs through the real code (c10_driver) and every stripe is "
         "judged by TLC (StripesTrace: Exact on H, W, C + Partition; CascadeTrace: NoEarlyOverwrite on the recorded tile addressing). "
+        "Compiled part: every NPU stream of the corpus compilations (all single-operator kinds + cascade/branch/resize/stride-3 families) "
+        "is decoded; per operator the stripes (logical positions, register-derived extents, pad and tile registers) go through the same "
+        "two trace specifications. "
         "evaluations = stripes x 3 axes; distinct_nontrivial = distinct (class, padding, k, d, s, split, concat, upscale, pad_before>0, "
         "pad_after>0, first, last, chain length, wrapped tile) signatures")
     run.assumptions += [
@@ -626,8 +786,10 @@ def main(tier, only=None):
     return run.finish()
 
 
-def report_stripe_violations(run, by_id, evmap, sviol):
+def report_stripe_violations(run, by_id, evmap, sviol, full=None):
+    full = full or {}
     groups = {}
+    keys = set()
     for t, q, opi, axis, clause in sviol:
         groups.setdefault((t, q, opi, axis), set()).add(clause)
     for (t, q, opi, axis), clauses in sorted(groups.items(), key=lambda kv: (sorted(kv[1]), kv[0])):
@@ -636,20 +798,25 @@ def report_stripe_violations(run, by_id, evmap, sviol):
         case = by_id.get(t, {"id": t})
         if q < 0:
             op = hdr["ops"][opi]
-            run.violation("Partition|cls=%s|chain=%d|op=%d" % (op["cls"], hdr["n"], opi),
+            keys.add("Partition|cls=%s" % op["cls"])
+            run.violation("Partition|cls=%s|chain=%d|op=%d" % (op["cls"], hdr["n"], opi) if hdr.get("model", True) else "Partition|cls=%s|compiled" % op["cls"],
                           "the OFM boxes of operator %d (%s) do not partition its written volume; case %s" % (
                               opi, op["cls"], json.dumps({k: v for k, v in case.items() if k not in ("id", "fam")})),
-                          {"case": case, "clauses": sorted(clauses)})
+                          {"case": full.get(t, case), "clauses": sorted(clauses)})
             continue
         e = [x for x in ev if x["e"] == "S" and x["q"] == q][0]
         op = hdr["ops"][opi]
         key = stripe_key(op, axis, e["first"] and e["last"], clauses)
+        keys.add(key)
         run.violation(key, describe(case, hdr, e, axis, clauses) + "; case " + json.dumps({k: v for k, v in case.items() if k not in ("id", "fam")}),
-                      {"case": case, "stripe": e, "axis": axis, "clauses": sorted(clauses)})
+                      {"case": full.get(t, case), "stripe": e, "axis": axis, "clauses": sorted(clauses)})
+    return keys
 
 
-def report_cascade_violations(run, by_id, evmap, cviol):
+def report_cascade_violations(run, by_id, evmap, cviol, full=None):
+    full = full or {}
     groups = {}
+    keys = set()
     for t, q, opi, what in cviol:
         groups.setdefault((t, what), []).append((q, opi))
     for (t, what), lst in sorted(groups.items()):
@@ -660,18 +827,30 @@ def report_cascade_violations(run, by_id, evmap, cviol):
         op = hdr["ops"][opi]
         x = op["ax"]["H"]
         key = "Cascade|%s|consumer_stride=%d" % (what, x["s"])
+        keys.add(key)
         e = [y for y in ev if y["e"] == "S" and y["q"] == q]
         run.violation(key, "%s: consumer %s (k=%s d=%s s=%s pad=%s, stripe %s rows, stripe input %s) reads through a rolling buffer of %s rows "
                            "(producer stripe %s rows); stripe %s reads a row that is %s; case %s" % (
                                what, op["cls"], x["k"], x["d"], x["s"], op["pt"], op["h"], op["hin"], op["store"], hdr["ops"][opi - 1]["h"],
                                e[0]["H"][:4] if e else q, "no longer in its slot" if what == "NoEarlyOverwrite" else "not produced yet",
                                json.dumps({k: v for k, v in case.items() if k not in ("id", "fam")})),
-                      {"case": case, "events": lst[:8], "what": what})
+                      {"case": full.get(t, case), "events": lst[:8], "what": what})
+    return keys
 
 
 def replay(path):
     rp = json.load(open(path))["replay"]
     case = rp["case"]
+    if case.get("compiled"):
+        jobs = [{"id": "r0", "family": case["family"], "net": case["net"], "opts": case["opts"]}]
+        straces, ctraces, meta, _ = compiled_traces(jobs, compile_jobs(jobs))
+        bad = 0
+        for mod, trs in (("StripesTrace", straces), ("CascadeTrace", ctraces)):
+            for t, ev in trs:
+                _, v, _ = validate(mod, ev)
+                print("%s verdict for stream %s:" % (mod, meta[t][0].get("stream")), v)
+                bad += len(v)
+        return 1 if bad else 0
     try:
         ev = drv.run_case(case)
     except Exception as ex:
